@@ -2,7 +2,7 @@
     of the library as a function from a list of byte strings to a result
     class and a list of byte strings (the projected observables).  The Go
     harness implements the same table on top of the real code. *)
-From DV Require Import Base.Bytes Label.Model V4.Model V4.Accessors V4.Builders V6.Model V6.Dump V6.Relay.
+From DV Require Import Base.Bytes Label.Model V4.Model V4.Accessors V4.Builders V6.Model V6.Dump V6.Relay Raw.Model.
 
 
 (** entry 1: rfc1035label.FromBytes(b) -> Labels *)
@@ -202,6 +202,44 @@ Definition e_v6_request (args : list bytes) : res (list bytes) :=
 Definition e_v6_reply (args : list bytes) : res (list bytes) :=
   match args with [w] => let* m := dec_msg w in let* r := new_reply_from_message m in Ok (dump_msg r) | _ => Err end.
 
+(** * raw IPv4/UDP connection (entries 60, 61) *)
+Definition e_raw_write (args : list bytes) : res (list bytes) :=
+  match args with
+  | [payload; dip; dport; sip; sport] =>
+    Ok [udp4pkt payload (mkAddr (ip_of_arg dip) (n_of_be dport)) (mkAddr (ip_of_arg sip) (n_of_be sport))]
+  | _ => Err
+  end.
+
+Fixpoint read_all (fuel : nat) (bound : option udpaddr) (blen : nat) (frames : list bytes) : res (list bytes) :=
+  match fuel with
+  | O => Fuel
+  | S f =>
+    match frames with
+    | [] => Ok []
+    | _ =>
+      let* (r, rest) := read_from bound blen frames in
+      let* more := read_all f bound blen rest in
+      match r with
+      | Delivered p s sp => Ok ([x01] :: p :: s :: be16 sp :: more)
+      | EOF => Ok ([xee] :: more)
+      | ConnError => Ok more
+      end
+    end
+  end.
+
+(** args: bound kind (0 = nil bound, 1 = port only, 2 = ip+port), bound ip, bound port, len(b) as 2 octets, frames... *)
+Definition e_raw_read (args : list bytes) : res (list bytes) :=
+  match args with
+  | kind :: bip :: bport :: blen :: frames =>
+    let bound := match n_of_be kind with
+                 | 0 => None
+                 | 1 => Some (mkAddr None (n_of_be bport))
+                 | _ => Some (mkAddr (Some bip) (n_of_be bport))
+                 end%N in
+    read_all (S (length frames)) bound (N.to_nat (n_of_be blen)) frames
+  | _ => Err
+  end.
+
 Definition run (entry : N) (args : list bytes) : res (list bytes) :=
   match entry with
   | 1 => e_label_from args
@@ -217,6 +255,8 @@ Definition run (entry : N) (args : list bytes) : res (list bytes) :=
   | 30 => e_v4_accessor args
   | 40 => e_v4_build args
   | 50 => e_v6_encap args
+  | 60 => e_raw_write args
+  | 61 => e_raw_read args
   | 51 => e_v6_decap args
   | 52 => e_v6_inner args
   | 53 => e_v6_decap_index args
